@@ -7,6 +7,34 @@ BASELINE_OFF = ("cd /repo && GOFLAGS=-mod=mod GOPROXY=off GOSUMDB=off GOTOOLCHAI
                 "go test -json -vet=off -count=1 -timeout 25m ./...")
 
 CHECKS = {
+ "C03": dict(level="exploration", design="5/C03",
+   text="Table sets of 1..6 tables with increasing update-index ranges over a small overlapping key alphabet (updates, deletions, re-creations, log tombstones with old update indices) are read through the raw merged view and through Stack.Merged() over hand-placed files; full scans and seeks at every key class are compared with the newest-wins overlay computed from the inputs.",
+   note="Trusts the generator and the overlay reference (gen/multi.go).",
+   technique="runtime monitoring: reference-model oracle (newest-wins overlay) over real merged iterators on generated table sets"),
+ "C07": dict(level="exploration", design="5/C07",
+   text="Model-driven single-handle histories (creates, updates, deletes, symrefs, peeled tags, log appends, log tombstones, varied table sizes) with auto-compaction, CompactAll, AutoCompact and reopen; after every call the handle's full ref+log scan must equal the reference model, a fresh handle every 5 calls. The harness tracks which tables were merged, so the evidence counts compactions of upper ranges holding a tombstone for a key that lives in a lower table.",
+   note="Trusts the reference stack model (gen/txn.go). Which range gets compacted is decided by the code under test; ranges are steered only through table sizes.",
+   technique="runtime monitoring: reference-model oracle over real stack histories, views compared before/after every compaction"),
+ "C09": dict(level="exploration", design="5/C09",
+   text="Sequential random histories over 2..4 handles; the harness reads tables.list independently and knows which handles are stale. Stale Add/NewAddition must return ErrLockFailure, stale CompactAll/AutoCompact/Clean must leave the directory byte-identical; after a failed Add UpToDate(), NextUpdateIndex() and the immediate retry are checked.",
+   note="Sequential by construction (the property quantifies over sequential histories); interleavings are C04's.",
+   technique="runtime monitoring: staleness reference model + directory snapshots around every call of real multi-handle histories"),
+ "C11": dict(level="exploration", design="5/C11",
+   text="RefsFor is called for every occurring object id (<=40 per table) and for absent ids on tables with pooled ids (object index present, skipped, position lists omitted, min update index > 0), on raw merged views and on stack views over generated table sets; oracle = filter of the generator's list / of the overlay with absolute update indices.",
+   note="Trusts the generator; the independent decoder tells which tables carry omitted position lists.",
+   technique="runtime monitoring: reference-model oracle (filter of the input list) over real RefsFor iterators"),
+ "C12": dict(level="exploration", design="5/C12",
+   text="Histories of transactions over names built from {a,b,c,ab} up to depth 3 plus malformed names, submitted through Stack.Add and as tables of 2..3-table Additions; the reference rule L'=(L-D)uA is checked in both directions (accepted <=> acceptable) and the live names of the stack are scanned for conflicts after every commit.",
+   note="Trusts the 20-line reference rule in props/c12.go.",
+   technique="runtime monitoring: executable reference rule + invariant scan of live names after every commit of real histories"),
+ "C13": dict(level="exploration", design="5/C13",
+   text="CompactAll(expiry) on generated stacks (0..6 tables, several entries per ref, tombstones) with each limit unset / below / equal / inside / above the data range; expected = reference filter over the model view, refs untouched, through the same handle and a fresh one, idempotence on repeat.",
+   note="Trusts the reference filter keepLog in props/c13.go.",
+   technique="runtime monitoring: reference filter oracle over real CompactAll(expiry) executions at boundary values"),
+ "C17": dict(level="exploration", design="5/C17",
+   text="(a) the real segment chooser is called on every size vector of length <=5 (quick) / <=6 (thorough) over 11 representative sizes and on random longer vectors and judged by the three stated conditions; (b) single-writer workloads of identical-size transactions (size equality measured from the files) are monitored after every Add: depth <= 2*log2(n), entries rewritten <= n*log2(n)*e, every successful auto-compaction strictly reduces the table count over a contiguous range. Known findings (entries bound exceeded for tiny N and for rewritten-names-with-logs workloads) are listed in known_findings.json.",
+   note="Chooser reached through export/zz_verif_export2.go (same unexported function the repository's own test calls); falls back to real stacks only if the wrapper does not compile.",
+   technique="runtime monitoring: enumerated inputs to the real chooser judged by the stated conditions + bound monitors on Stats/table count after every Add of long real workloads"),
  "C14": dict(level="exploration", design="5/C14",
    text="Every file emitted by the real writer in this run (generated tables of all configurations; stack additions and compactions) is decoded by an independent decoder written from the format description and compared with its source records, rule by rule (header/footer/CRC, padding, restarts, key order, every index entry at every level, object-index position lists, update-index range).",
    note="Trusts my reading of the format (DESIGN.md appendix A) and the Go standard library zlib/crc32.",
